@@ -134,7 +134,9 @@ def getattr_obj(I, obj, ty, name):
         return SV(ctx.load_raw(ctx.ref_id(obj), name), shape)
     if has_field:
         if key not in ctx.partial_objs and ty.fields and name not in ty.fields and not getattr(ty, "open_shape", False):
-            raise Unsupported("attribute %s of %s is assigned by __init__ but not described by the contract's shape (contract does not cover this code)" % (name, ty.cls.key))
+            # an attribute the contract's shape does not describe: its value is ARBITRARY (over-approximation: no invariant is assumed)
+            ctx.note("attribute %s of %s is not described by the contract's shape: read as an arbitrary value" % (name, ty.cls.key))
+            return SV(ctx.load_raw(ctx.ref_id(obj), name), TAny())
         return ctx.typed(ctx.load_raw(ctx.ref_id(obj), name), ty.fields.get(name))
     if name in ov:
         v = ov[name]
@@ -243,8 +245,12 @@ def setattr_(I, obj, name, v):
             if fty is not None and not isinstance(fty, TAny):
                 ctx.oblige("fieldtype[%s.%s]" % (ty.cls.name, name), ctx.resolve_ty(fty).inv(sv.t, goal=True), kind="type")
             ctx.store_raw(ctx.ref_id(obj), name, sv.t)
-            ctx.wrote(name, ctx.ref_id(obj))
             key = obj_key(ctx, obj)
+            if ty.fields and name not in ty.fields and key not in ctx.partial_objs:
+                # an attribute outside the vocabulary of the contract's shape: no clause can mention it, so it is not framed either
+                ctx.note("store to attribute %s of %s, which the contract's shape does not describe (not framed)" % (name, ty.cls.key))
+            else:
+                ctx.wrote(name, ctx.ref_id(obj))
             if ctx.store_hook is not None and key not in ctx.partial_objs:
                 ctx.store_hook("field-store:" + name)
             if key in ctx.partial_objs:
